@@ -56,7 +56,7 @@ PROPS = {
     },
     "C01": {
         "coq": "Properties/C01.v",
-        "coq_extra": ["Properties/C16e.v", "Properties/C01src.v"],
+        "coq_extra": ["Properties/C16e.v", "Properties/C01src.v", "Properties/ExprVal.v"],
         "pinchecks": ["PinChecks/PcEnforcer2Gen.v", "PinChecks/PcEnforceGen.v", "PinChecks/PcEnforcerGen.v", "PinChecks/PcLiterals.v", "PinChecks/PcModel2Gen.v", "PinChecks/PcEffector.v", "PinChecks/PcEffectorGen.v",
                       "PinChecks/PcIniGen.v", "PinChecks/PcRegexGen.v", "Gen/RegexExamples.v", "PinChecks/PcRegexFmGen.v", "PinChecks/PcStrFnGen.v"] + ["PinChecks/PcStoreGen.v", "PinChecks/PcLinksGen.v", "PinChecks/PcRoleGraph.v", "PinChecks/PcRoleManagerGen.v"],
         "gen": "c01",
@@ -96,7 +96,7 @@ PROPS = {
 }
 
 
-ENGINE_PINS = ["PinChecks/PcEnforcer2Gen.v", "PinChecks/PcEnforceGen.v", "PinChecks/PcEnforcerGen.v", "PinChecks/PcModel2Gen.v", "PinChecks/PcStoreGen.v", "PinChecks/PcLinksGen.v", "PinChecks/PcInternalGen.v", "PinChecks/PcFsaveGen.v", "PinChecks/PcAdaptersGen.v", "PinChecks/PcBody_fmgmtapi.v", "PinChecks/PcApiGen.v", "PinChecks/PcQueryGen.v", "PinChecks/PcBody_frbacapi.v", "PinChecks/PcRoleGraph.v", "PinChecks/PcRoleManagerGen.v", "PinChecks/PcLiterals.v"]
+ENGINE_PINS = ["Gen/RhaiExamples.v", "PinChecks/PcEnforcer2Gen.v", "PinChecks/PcEnforceGen.v", "PinChecks/PcEnforcerGen.v", "PinChecks/PcModel2Gen.v", "PinChecks/PcStoreGen.v", "PinChecks/PcLinksGen.v", "PinChecks/PcInternalGen.v", "PinChecks/PcFsaveGen.v", "PinChecks/PcAdaptersGen.v", "PinChecks/PcBody_fmgmtapi.v", "PinChecks/PcApiGen.v", "PinChecks/PcQueryGen.v", "PinChecks/PcBody_frbacapi.v", "PinChecks/PcRoleGraph.v", "PinChecks/PcRoleManagerGen.v", "PinChecks/PcLiterals.v"]
 ENGINE_NOTE = ("trusted: Coq kernel, extraction, harness; modelled not verified: hashlink LinkedHashSet/LinkedHashMap order (insert moves an existing entry "
                "to the back), petgraph adjacency order, rhai on the matcher fragment; adapters are modelled at the level of parsed lines (the CSV text level is "
                "C16/C09-text); every modelled function body is pinned by hash to the source it was aligned with")
@@ -217,7 +217,7 @@ PROPS.update({
 PROPS.update({
     "C04": {
         "coq": "Properties/C04.v",
-        "coq_extra": ["Properties/SrcStep.v", "Properties/C04src.v", "Properties/Model2Gen.v"],
+        "coq_extra": ["Properties/SrcStep.v", "Properties/C04src.v", "Properties/Model2Gen.v", "Properties/Linking.v"],
         "pinchecks": ENGINE_PINS,
         "gen": "c04",
         "level_text": "Coq theorems over the engine: StoreInv (duplicate-free lists) for every reachable state of every history (c04_inv_run); each model-level "
